@@ -23,7 +23,7 @@ READ_LIKE = {
     "lha_input_stream_read": [("eq", 0)], "do_read": [("sle", 0), ("slt", 1)],
     "read_bits": [("slt", 0)], "read_bit": [("slt", 0)], "peek_bits": [("slt", 0)], "read_from_tree": [("slt", 0)],
     "read_code": [("slt", 0)], "read_length_value": [("slt", 0)], "read_offset_code": [("slt", 0)],
-    "getchar": [("slt", 0)], "getc": [("slt", 0)], "read_next_ext_header": [("eq", 0)], "read_next_entry": [("slt", 0)],
+    "getchar": [("slt", 0)], "getc": [("slt", 0)], "extend_raw_data": [("eq", 0)], "read_next_entry": [("slt", 0)],
     "fread": [("eq", 0)], "<callback>": [("eq", 0)], "start_new_block": [("eq", 0)],
 }
 
